@@ -329,7 +329,8 @@ class Forms(object):
                 pre = []
             else:
                 recv = [{'EpochYMD': [2000, 1, 1.5]}] if fq == 'Epoch.set' else []
-                pre = [rng.randint(1960, 2030), rng.randint(1, 12), rng.randint(1, 28) + 0.25]
+                y_, m_ = rng.randint(1960, 2030), rng.randint(1, 12)
+                pre = [y_, m_, self.c20.day_of(rng, y_, m_, frac=False) + 0.25]
             out.append(('keywordforms', [
                 ('leap_seconds=x', recv + pre + [{'kw': {'leap_seconds': x}}]),
                 ('utc=True, leap_seconds=x', recv + pre + [{'kw': {'utc': True, 'leap_seconds': x}}]),
